@@ -169,7 +169,7 @@ func annSig(toks []string, pos *int, gt reflect.Type) (string, error) {
 	}
 	// a type name, possibly package-qualified: struct or enum
 	name := tok
-	if *pos+1 < len(toks) && toks[*pos] == "." && gt.Name() != "" {
+	if *pos+1 < len(toks) && toks[*pos] == "." && (gt.Name() != "" || gt.Kind() == reflect.Struct) {
 		name = toks[*pos+1]
 		*pos += 2
 	}
